@@ -41,7 +41,8 @@ func encodeToString(candidate *CandidateNode, prefs encoderPreferences) (string,
 	}
 
 	printer := NewPrinter(encoder, NewSinglePrinterWriter(bufio.NewWriter(&output)))
-	err := printer.PrintResults(candidate.AsList())
+	// the printer explodes anchors and aliases in place for formats without them; encode a copy, not the document
+	err := printer.PrintResults(candidate.Copy().AsList())
 	return output.String(), err
 }
 
